@@ -248,3 +248,163 @@
         std::mem::forget(v0);
         std::mem::forget(v1);
     }
+
+// @h id=H10.2-i$i prop=C10,C16,C04 rep="i:0-5" quick="0,3,4" cap=900 mem=20 unwind=8 stubs="TileManager::calculate_hash -> injective packing (see H10.1)" bounds="one reader-backed tile (1 byte at a symbolic offset 0..3 of a 4-byte backing stream of arbitrary bytes) and one in-memory tile [c]; id pair (i%3) of {(5,6), (6,5), (5,9)} = (reader-backed id, in-memory id); i/3 = order of registration"
+    /// duplicates between reader-backed and in-memory tiles are stored once (and merged into one run when adjacent); the result is the same canonical function of the logical content
+    #[kani::proof]
+    #[kani::stub(crate::tile_manager::TileManager::calculate_hash, stub_hash)]
+    fn h10_2_reader_backed_i$i() {
+        const PAIRS: [(u64, u64); 3] = [(5, 6), (6, 5), (5, 9)];
+        let (a, b) = PAIRS[$i % 3];
+        let d0: u8 = kani::any();
+        let d1: u8 = kani::any();
+        let d2: u8 = kani::any();
+        let d3: u8 = kani::any();
+        let c: u8 = kani::any();
+        let off: u64 = kani::any();
+        kani::assume(off < 4);
+        let data = [d0, d1, d2, d3];
+        let da = if off == 0 { d0 } else if off == 1 { d1 } else if off == 2 { d2 } else { d3 };
+        let mut m = TM::new(Some(Cursor::new(&data[..])));
+        if $i / 3 == 0 {
+            m.add_offset_tile(a, off, 1).unwrap();
+            add1(&mut m, b, c);
+        } else {
+            add1(&mut m, b, c);
+            m.add_offset_tile(a, off, 1).unwrap();
+        }
+        // map semantics over the opened tile (C04)
+        assert!(lookup(&mut m, a) == Some(da));
+        assert!(lookup(&mut m, b) == Some(c));
+        assert!(m.num_addressed_tiles() == 2);
+        let r = m.finish();
+        assert!(r.is_ok());
+        let r = r.unwrap();
+        check_finish_two(&r, a, da, b, c);
+        kani::cover!(da == c);
+        kani::cover!(da != c && off == 3);
+        std::mem::forget(r);
+    }
+
+// @h id=H4.2-k$k prop=C04 rep="k:0-2" quick="0-2" cap=900 mem=16 unwind=8 stubs="TileManager::calculate_hash -> injective packing (see H10.1)" bounds="initial state 'opened': one reader-backed tile a (1 byte at a symbolic offset of a 4-byte backing stream); then one edit k of {0: add(b,[c]) with b any u64; 1: remove(a); 2: replace a by [c]}; probe id any u64"
+    /// an archive opened from bytes behaves like the same map under edits: replacing or removing an opened tile, or adding another id, never changes any other id
+    #[kani::proof]
+    #[kani::stub(crate::tile_manager::TileManager::calculate_hash, stub_hash)]
+    fn h4_2_opened_then_edit_k$k() {
+        let a: u64 = kani::any();
+        let b: u64 = kani::any();
+        let p: u64 = kani::any();
+        let d0: u8 = kani::any();
+        let d1: u8 = kani::any();
+        let c: u8 = kani::any();
+        let off: u64 = kani::any();
+        kani::assume(off < 2);
+        let data = [d0, d1];
+        let da = if off == 0 { d0 } else { d1 };
+        let mut m = TM::new(Some(Cursor::new(&data[..])));
+        m.add_offset_tile(a, off, 1).unwrap();
+        let mut rf = RefMap::new(a, b);
+        rf.set(a, Some(da));
+        if $k == 0 {
+            add1(&mut m, b, c);
+            rf.set(b, Some(c));
+        } else if $k == 1 {
+            m.remove_tile(a);
+            rf.set(a, None);
+        } else {
+            add1(&mut m, a, c);
+            rf.set(a, Some(c));
+        }
+        assert!(lookup(&mut m, p) == rf.get(p));
+        assert!(m.num_addressed_tiles() == rf.count());
+        assert!(listed(&m, p) == rf.get(p).is_some());
+        kani::cover!($k == 1 || (p == a && rf.get(p).is_some()));
+        kani::cover!($k != 1 || (p == a && rf.get(p).is_none()));
+        kani::cover!($k != 0 || (a == b));
+        kani::cover!($k != 0 || (p == b && a != b));
+        std::mem::forget(m);
+    }
+
+// @h id=H13.t prop=C13,C20 tier=quick cap=900 mem=16 unwind=10 uw="FixR=6" bounds="tile of 3 bytes at a symbolic offset 0..4 of an 8-byte stream of arbitrary bytes; every fragmentation schedule (each read moves k bytes, 1 <= k <= requested, k chosen freshly per call)"
+    /// a tile lookup returns exactly the tile's bytes however the stream fragments the read, and reads nothing outside the tile's byte range
+    #[kani::proof]
+    fn h13_t_tile_fetch_fragmented() {
+        let off: u64 = kani::any();
+        kani::assume(off <= 4);
+        let mut data = [0u8; 8];
+        let mut i = 0;
+        while i < 8 { data[i] = kani::any(); i += 1; }
+        let mut rd = FixR::new(&data, 8);
+        rd.frag = true;
+        let mut m = TileManager::<FixR<8>>::new(Some(rd));
+        m.add_offset_tile(7, off, 3).unwrap();
+        let r = m.get_tile(7);
+        assert!(r.is_ok());
+        let v = r.unwrap().unwrap();
+        assert!(v.len() == 3);
+        let o = off as usize;
+        assert!(v[0] == data[o] && v[1] == data[o + 1] && v[2] == data[o + 2]);
+        // C20: exactly the tile's byte range was read
+        let rdr = m.reader.as_ref().unwrap();
+        assert!(rdr.lo == off && rdr.hi == off + 3);
+        kani::cover!(off == 4);
+        kani::cover!(rdr.ops >= 4);   // seek + three 1-byte reads
+        kani::cover!(rdr.ops == 2);   // seek + one full read
+        std::mem::forget(v);
+        std::mem::forget(m);
+    }
+
+// @h id=H15.t prop=C15 tier=quick cap=900 mem=16 unwind=8 uw="FixR=6" bounds="tile of 3 bytes in an 8-byte stream; the stream fails from a symbolic operation index on (any u32); full transfers"
+    /// if the stream starts failing during a tile lookup the lookup returns an error: no panic, no success for an incomplete transfer
+    #[kani::proof]
+    fn h15_t_tile_fetch_faults() {
+        let k: u32 = kani::any();
+        let data = [1u8, 2, 3, 4, 5, 6, 7, 8];
+        let mut rd = FixR::new(&data, 8);
+        rd.fail_from = k;
+        let mut m = TileManager::<FixR<8>>::new(Some(rd));
+        m.add_offset_tile(7, 2, 3).unwrap();
+        let r = m.get_tile(7);
+        let failed = m.reader.as_ref().unwrap().failed;
+        match &r {
+            Ok(v) => {
+                assert!(!failed);
+                let v = v.as_ref().unwrap();
+                assert!(v.len() == 3 && v[0] == 3 && v[1] == 4 && v[2] == 5);
+            }
+            Err(_) => assert!(failed),
+        }
+        kani::cover!(r.is_ok());
+        kani::cover!(r.is_err() && k == 0);
+        kani::cover!(r.is_err() && k == 1);
+        std::mem::forget(r);
+        std::mem::forget(m);
+    }
+
+// @h id=H15.f prop=C15 tier=quick cap=900 mem=20 unwind=8 uw="FixR=6" stubs="TileManager::calculate_hash -> injective packing (see H10.1)" bounds="finish() over one reader-backed tile (2 bytes) and one in-memory tile; the backing stream fails from a symbolic operation index on"
+    /// building the archive's tile data from a backing stream that starts failing returns an error, never a silently incomplete result
+    #[kani::proof]
+    #[kani::stub(crate::tile_manager::TileManager::calculate_hash, stub_hash)]
+    fn h15_f_finish_faults() {
+        let k: u32 = kani::any();
+        let c: u8 = kani::any();
+        let data = [1u8, 2, 3, 4];
+        let mut rd = FixR::new(&data, 4);
+        rd.fail_from = k;
+        let mut m = TileManager::<FixR<4>>::new(Some(rd));
+        m.add_offset_tile(5, 1, 2).unwrap();
+        let r0 = m.add_tile(9, vec![c]);
+        std::mem::forget(r0);
+        let r = m.finish();
+        match &r {
+            Ok(fr) => {
+                assert!(k >= 2);   // the fault-free run needs its seek and its read
+                assert!(fr.num_addressed_tiles == 2);
+                assert!(fr.data.len() == 3);
+            }
+            Err(_) => assert!(k < 2),
+        }
+        kani::cover!(r.is_ok());
+        kani::cover!(r.is_err() && k == 1);
+        std::mem::forget(r);
+    }
